@@ -71,6 +71,13 @@ def numbering_agreement(prog):
             continue
         te = f.terms
         for cs in te.calls:
+            # an ordered set is a sort by `Ord` of the element: `unique_variables().into_iter().collect::<BTreeSet<_>>()`
+            # (the collection's type is visible at the call that iterates it)
+            if cs.callee.name in ("into_iter", "iter", "first", "last", "range") and cs.args and \
+                    "BTreeSet" in (cs.callee.res or "") and \
+                    any(mir.is_call(x, "unique_variables") for x in mir.subterms(cs.args[0])):
+                sites.append((f, cs, "Ord of the name"))
+                continue
             if not cs.callee.name.startswith("sort") or not cs.args:
                 continue
             r = strip(cs.args[0])
